@@ -253,8 +253,9 @@ class Program:
                             defaults[st.target.id] = st.value.value
                         else:
                             ok = False      # field(default_factory=...) and the like
+            frozen = any(isinstance(d, ast.Call) and any(k.arg == "frozen" and isinstance(k.value, ast.Constant) and k.value.value is True for k in d.keywords) for d in ci.decorators)
             if ok and fields:
-                out[qn] = (tuple(fields), defaults, is_nt, frozenset(f for f in fields if is_nt or f not in stored))
+                out[qn] = (tuple(fields), defaults, is_nt, frozenset(f for f in fields if is_nt or frozen or f not in stored))
         self._records = out  # type: ignore[attr-defined]
         return out
 
